@@ -50,7 +50,7 @@ enum Code {
   S_NEW, S_NEW_INVALID, S_EMPTY, S_WHOLE, S_COPY, S_MOVE, S_ASSIGN, S_MOVE_ASSIGN, S_SELF_ASSIGN, S_UNION, S_INTERSECT, S_ACCESS, S_CONVERT,
   P_NEW, P_NEW_BADCOUNT, P_EMPTY, P_COPY, P_MOVE, P_ASSIGN, P_MOVE_ASSIGN, P_SELF_ASSIGN, P_SELF_MOVE_ASSIGN, P_CROSS_ASSIGN,
   P_SCALE, P_DIV, P_NEG, P_ISCALE, P_IDIV, P_ADD, P_SUB, P_MUL, P_IADD, P_ISUB, P_LINCOMB, P_LINCOMB_BAD,
-  P_APPLY, P_APPLY_SPLINEOP, P_LINFORM, P_BILFORM, P_EVAL, P_PRED, P_FRONTBACK, P_MOVE_REUSE, P_EVAL_MUTATE, P_INTERPOLATE, P_REGRID,
+  P_APPLY, P_APPLY_SPLINEOP, P_LINFORM, P_BILFORM, P_EVAL, P_PRED, P_FRONTBACK, P_MOVE_REUSE, P_EVAL_MUTATE, P_INTERPOLATE, P_REGRID, P_SWAP, S_SELF_MOVE,
   CODE_COUNT
 };
 inline const char *code_name(int c) {
@@ -58,7 +58,7 @@ inline const char *code_name(int c) {
                             "S_NEW", "S_NEW_INVALID", "S_EMPTY", "S_WHOLE", "S_COPY", "S_MOVE", "S_ASSIGN", "S_MOVE_ASSIGN", "S_SELF_ASSIGN", "S_UNION", "S_INTERSECT", "S_ACCESS", "S_CONVERT",
                             "P_NEW", "P_NEW_BADCOUNT", "P_EMPTY", "P_COPY", "P_MOVE", "P_ASSIGN", "P_MOVE_ASSIGN", "P_SELF_ASSIGN", "P_SELF_MOVE_ASSIGN", "P_CROSS_ASSIGN",
                             "P_SCALE", "P_DIV", "P_NEG", "P_ISCALE", "P_IDIV", "P_ADD", "P_SUB", "P_MUL", "P_IADD", "P_ISUB", "P_LINCOMB", "P_LINCOMB_BAD",
-                            "P_APPLY", "P_APPLY_SPLINEOP", "P_LINFORM", "P_BILFORM", "P_EVAL", "P_PRED", "P_FRONTBACK", "P_MOVE_REUSE", "P_EVAL_MUTATE", "P_INTERPOLATE", "P_REGRID"};
+                            "P_APPLY", "P_APPLY_SPLINEOP", "P_LINFORM", "P_BILFORM", "P_EVAL", "P_PRED", "P_FRONTBACK", "P_MOVE_REUSE", "P_EVAL_MUTATE", "P_INTERPOLATE", "P_REGRID", "P_SWAP", "S_SELF_MOVE"};
   return c >= 0 && c < CODE_COUNT ? n[c] : "?";
 }
 
@@ -660,6 +660,15 @@ class Interp {
         });
         return true;
       }
+      case S_SELF_MOVE: {
+        if (!ns) return false;
+        size_t a = si(op.a);
+        target(1, a);
+        auto &ref = sups[a];
+        sups[a] = std::move(ref);  // only the class invariants are required afterwards (DESIGN 6.3)
+        moves_seen++; involve(1, a);
+        return true;
+      }
       default: break;
     }
     return dispatch_spline(op);
@@ -726,7 +735,7 @@ class Interp {
         interpolate_op(op);
         return true;
       }
-      case P_COPY: case P_MOVE: case P_ASSIGN: case P_MOVE_ASSIGN: case P_SELF_ASSIGN: case P_SELF_MOVE_ASSIGN:
+      case P_COPY: case P_MOVE: case P_ASSIGN: case P_MOVE_ASSIGN: case P_SELF_ASSIGN: case P_SELF_MOVE_ASSIGN: case P_SWAP:
       case P_SCALE: case P_DIV: case P_NEG: case P_ISCALE: case P_IDIV: case P_EVAL: case P_FRONTBACK: case P_LINFORM: case P_APPLY: {
         auto oo = pick_order(op.a);
         if (!oo) return false;
@@ -841,6 +850,18 @@ class Interp {
           if ((focus & F_C14) && !snap(v[a]).same(src)) fail("C14", "assigned spline differs from its source (self-assignment must preserve the value)");
           set_fam(kind, a, fam(kind, b));
         }
+        break;
+      }
+      case P_SWAP: {
+        // std::swap = move construction + two move assignments: each object ends up with the other's former state
+        size_t b = (unsigned)op.b % v.size();
+        touch(kind, b);
+        auto sa0 = snap(v[a]), sb0 = snap(v[b]);
+        target(kind, a); target(kind, b);
+        std::swap(v[a], v[b]);
+        moves_seen++;
+        if ((focus & (F_C14 | F_C10)) && a != b && (!snap(v[a]).same(sb0) || !snap(v[b]).same(sa0))) fail(focus & F_C14 ? "C14" : "C10", "after std::swap the two splines do not hold each other's former state");
+        int fa_ = fam(kind, a), fb_ = fam(kind, b); set_fam(kind, a, fb_); set_fam(kind, b, fa_);
         break;
       }
       case P_SCALE: { T cc = zero_scalar ? mk(0) : c; store_spline((op.d & 32) ? cc * v[a] : v[a] * cc, fam(kind, a)); break; }
